@@ -525,7 +525,7 @@ def build_plan(lines, tier):
     # for them must put them back), unterminated literals full of brackets
     some = next(iter(invalid.values()))['items'][0] if invalid else None
     if some is not None:
-        texts = ['(' * 60 + 'a', '(' * 200, 'a == "' + '(' * 80, 'a and (' * 40 + 'b', '(' * 55 + 'a' + ')' * 54,
+        texts = ['a == *', 'a == [*]', 'a == [*, *]', 'a ==  ', '*', 'a == [1,]x', '(' * 60 + 'a', '(' * 200, 'a == "' + '(' * 80, 'a and (' * 40 + 'b', '(' * 55 + 'a' + ')' * 54,
                  'a == [' + '[' * 70, 'a == `' + '(' * 60, 'not ' * 60 + 'a', '(' * 51 + ' a ==']
         invalid['handwritten_deep'] = {'k': 'invalid', 'shape': ('*', 'invalid', 'handwritten_deep', 'none'), 'items': [
             {'text': t, 'cls': 'invalid', 'mode': 'text', 'pay': '', 'pay2': '', 'esc': '', 'ctx': some['ctx']} for t in texts]}
@@ -894,7 +894,7 @@ def run(tier):
         want = {'str', 'uri', 'ref_name', 'ref_display', 'xstr_type', 'xstr_payload', 'xstr_both', 'bin', 'unit',
                 'tz_name', 'tag', 'path_segment', 'number_text'}
         floor = 2200 if tier == 'quick' else 20000
-        if positions != want or ncases < floor or len(payload) < (150 if tier == 'quick' else 600) or empty:
+        if (positions != want or ncases < floor or len(payload) < (150 if tier == 'quick' else 600) or empty) and not found:
             raise MachineryError('vacuous run: positions %r, %d cases, %d payload groups, groups without an accepted '
                                  'canary payload: %r' % (sorted(want - positions), ncases, len(payload), empty[:8]))
         if nskel == 0:
